@@ -48,6 +48,8 @@ FIXED = [
     ("C04-NEWREF", ["C04", "C11"], "d3e60d4", "a model whose sub space was created before its base and overrides a reference was written without error but read_model raised 'Cannot create reference'; new_ref looked at the first sub space only"),
     ("C14-X", ["C14"], "a6ca415", "a zip save whose temporary directory is on another file system was copied onto the destination: a fault during the copy left a truncated archive at the path"),
     ("DD", ["C07", "C13", "C02"], "98f7b78", "deleting a parametrised space left its ItemSpaces alive (old handles answered and computed); renaming a space named as `base` by another space's formula kept the instances built from it"),
+    ("C10-F5b", ["C10"], "119103b", "deleting a space did not re-derive references of the child spaces of the re-derived sub spaces (`del model.Mid` left `B.K.t` bound through the vanished inheritance)"),
+    ("C04-RELREFS", ["C04", "C11"], "18ae908", "_check_subs_relrefs stopped at the first sub space defining the name: an impossible relative reference was accepted depending on sub-space order and the written model could not be read back"),
     ("M", ["C15"], "b10cccc", "export: names in a comprehension following a nested class/def scope were not rewritten to self.<name> (NameError in the package)"),
     ("N", ["C17"], "c0724cd", "nodes rolled back by a failure a formula handled leaked into the next traceback"),
     ("O", ["C04"], "14fa167", "`_is_cached = False` of a lambda-defined cells was written but not read back"),
@@ -79,6 +81,9 @@ KNOWN = [
     ("C04", "C04 a reference to a module that cannot be imported by name is written without error and cannot be read back",
      "`A.mod = types.ModuleType('dyn')` (a module object that `import dyn` cannot find): write succeeds and emits (\"Module\", \"dyn\"); read_model raises ModuleNotFoundError. A repair needs a pre-write validation pass (about 40 lines): not small",
      "findings/c04_witnesses.py"),
+    ("C04", "C04 a derived reference that is a null object in the source (its target in a child space was created after the reference) is bound to that object after write/read",
+     "Ab.s2 = Ab.Gc.max (auto); Base(bases=Ab) has a child Gc without max: derived Base.s2 is a null object and stays one when Base.Gc.max is created later; after write/read Base.s2 is Base.Gc.max (descendant targets under static derivation are outside what C10 states)",
+     "findings/c04_witnesses.py::null_derived_ref"),
     ("C14", "C14-S consecutive failed saves push the last good copy down",
      "two (or more) consecutive failed directory saves: each partial output is rotated into _BAK1, the last good copy moves to _BAK2, _BAK3 and is deleted after the fourth failure",
      "findings/c14_witnesses.py::S"),
